@@ -39,7 +39,8 @@ STUBBED = ["socket/select/time/pinger (simkit)", "controller peer (scripted)",
            "hosts (frames injected)"]
 EXPECT_PROBES = ["pi_buffered", "pi_unbuffered", "pi_truncated",
                  "buffer_used", "buffer_bogus", "buffer_use_refused",
-                 "refused_flow_mod_names_held_buffer"]
+                 "refused_flow_mod_names_held_buffer",
+                 "deleting_flow_mod_used_buffer"]
 
 
 def _after_controller(r, nports):
@@ -135,6 +136,11 @@ def gen_plan(seed, tier):
                                      W.FF_CHECK_OVERLAP, W.FF_EMERG]),
                     "buffer": r.wpick([(5, "last"), (2, "first"),
                                        (2, "used"), (1, 77)])})
+      if Rng(mix(seed, "fmdel", i)).chance(0.12):
+        # a delete that names a buffer (the specification calls the field
+        # not meaningful there): used or left alone, never half of each
+        steps[-1].update(cmd=Rng(mix(seed, "fmdel2", i)).pick(
+            [W.FC_DELETE, W.FC_DELETE_STRICT]), flags=0)
     elif k == "port_mod":
       # a port that must not cause packet-ins (or is switched back): its
       # misses must not touch the pool either
